@@ -424,6 +424,10 @@ func reifyValue(
 			ctx := val.Context()
 			return reflect.Value{}, raisePathErr(err, val.meta(), "", ctx.path("."))
 		}
+		// the validators of an interface{} field apply to the value it receives
+		if err := runValidators(reified, opts.validators); err != nil {
+			return reflect.Value{}, raiseValidation(val.Context(), val.meta(), "", err)
+		}
 		return reflect.ValueOf(reified), nil
 	}
 
